@@ -106,6 +106,16 @@ def class_worker(part, codes):
             part.fail("class-str-roundtrip:%d" % code, "from_string_code(%r) != from_integer_code(%d)" % (sb, code), case)
         if not (a == b) or hash(a) != hash(b) or (a < b) or (b < a):
             part.fail("class-eq:%d" % code, "code-built and matrix-built operation %d differ under ==/hash/<" % code, case)
+        # the same rotation handed over in another memory layout (Fortran order - what `.T` of a product, or a reader that transposes,
+        # produces; for integer and float types; a strided view): the same operation. Only non-symmetric rotations can tell
+        for lname, Rl in (("fortran-float", np.asfortranarray(Rm)), ("fortran-int", np.asfortranarray(np.array(op[0], dtype=np.int64).reshape(3, 3))),
+                          ("transposed-view-of-transpose", np.ascontiguousarray(Rm.T).T), ("strided", np.repeat(np.repeat(Rm, 2, axis=0), 2, axis=1)[::2, ::2])):
+            try:
+                bl = SymmetryOperation(Rl, tm.copy())
+                if int(bl.integer_code) != code or str(bl) != want or not (bl == a) or hash(bl) != hash(a):
+                    part.fail("class-layout:%s" % lname, "SymmetryOperation built from the rotation of %s given as %s: code %s, prints %r" % (want, lname, bl.integer_code, str(bl)), case)
+            except Exception as e:
+                part.fail("class-layout-raise:%s" % lname, "SymmetryOperation from a %s rotation raised %r" % (lname, e), case)
         # an operation built from an integer-typed rotation matrix (the natural way to write -1/0/1) behaves the same
         bi = SymmetryOperation(np.array(op[0], dtype=np.int64).reshape(3, 3), tm)
         pts3 = np.array([[0.1, 0.2, 0.3], [0.9, -0.4, 1.7]])
